@@ -27,6 +27,9 @@ func showFamily(mk func() *clustermc.Family) func(tier, sub string) int {
 				continue
 			}
 			for _, cfg := range sc.Configs {
+				if fl := os.Getenv("VERIF_SHOW_FAULT"); fl != "" { // diagnostics: one injected API fault, e.g. bind:w0-0
+					cfg.Faults = map[string]bool{fl: true}
+				}
 				var obs clustermc.ObserverWithData
 				var sobs schedrun.Observer
 				if f := mk(); f.NewObserver != nil {
